@@ -9,6 +9,10 @@ TB = ("Trusted base: the executable reference model and format interpreters unde
 
 FILE_TECH = "session simulation at the stream seams: generated files and history-made charts through read_file/write_file on a simulated file system (real io/codecs layers over a stub device: tiny buffers, short counts, platform defaults, stale destination, EIO/ENOSPC/close errors placed inside the op, retry after failure), judged by an independent reference interpreter of the format; write/read generation chains"
 CLAIMED = {
+ "C04": (FILE_TECH,
+         "Generated BMS/BME/PMS texts for each of the five layouts (shift_jis headers with double-byte characters whose trail byte is 0x5C/0x7C, #WAV / #BPMxx tables, data lines in shuffled order, several lines for one measure and channel, subdivisions 1..192 incl. 5ths/7ths/9ths, channel-03 and channel-08 tempo changes, #LNOBJ long notes, ignored channels, CRLF/LF) are installed and read through codecs.StreamReader over tiny buffers and short reads. Every visible object must become a hit - or, when closed by the #LNOBJ marker, a hold whose head is the preceding object of that lane in time - in the lane's column at the millisecond position of exact rational integration, with the #WAV sample of its id; title, artist, level, #LNOBJ, extended tempos, samples and other headers must be retained. Injected read errors may only make the call raise.", "§5 C04"),
+ "C05": (FILE_TECH,
+         "BMS charts built in beat space (tempo points on measure lines, objects on and off the snap grid at least 1/48 beat apart per lane, long notes, known and unknown samples, every layout, up to 1000 tempo points = the last measure number the format has), read from generated files, or rated, are written through the binary stream seam (short writes, stale longer file, ENOSPC/EIO/close errors). The bytes must parse line by line, conserve the object count (one per hit, head + #LNOBJ per hold), keep lanes, place objects exactly when on the snap grid and within 1/192 beat otherwise, and reproduce the in-memory tempo timeline segment by segment.", "§5 C05"),
  "C02": (FILE_TECH,
          "Generated .sm texts (1-4 charts of every supported chart type, measures of 4..192 rows incl. 20/28/36, symbols 1 2 3 4 M L F K with well-paired holds and rolls, comment lines, blank lines, 1-6 #BPMS entries on measure lines and on the 1/8-beat grid, any #OFFSET sign, #STOPS absent or empty, CRLF/LF) are installed in the simulated file system and read through tiny buffers, short reads and platform defaults; every chart must come back with its header fields and every object in the column and at the millisecond position (and hold length) obtained by exact rational integration of the file's beats over its #BPMS segments from -#OFFSET, within 1e-6*(1+|t|) ms, and every tempo change of the file must be present at its millisecond position. Injected read errors may only make the call raise; a second file read in the same session must not be influenced by the first.", "§5 C02"),
  "C03": (FILE_TECH,
